@@ -347,7 +347,10 @@ async def worker(
             )
 
             # With every new PATCH API call (if done), restart the consistency waiting.
-            if newer_patch_version is not None and settings.persistence.consistency_timeout:
+            # A patch that changed nothing reports the version that has just been processed:
+            # no event will ever bring it (again), so there is nothing to wait for.
+            if (newer_patch_version is not None and settings.persistence.consistency_timeout
+                    and newer_patch_version != get_version(raw_event)):
                 expected_version = newer_patch_version
                 consistency_time = loop.time() + settings.persistence.consistency_timeout
 
